@@ -97,6 +97,9 @@ func signature(c *Case, f fail) string {
 		if c.Peek {
 			r += "+peek0"
 		}
+		if c.Pre {
+			r += "+pre"
+		}
 		parts = append(parts, r)
 	}
 	if len(c.C2S.Cuts)+len(c.S2C.Cuts) > 0 {
